@@ -230,3 +230,59 @@ func GenTieFamily(t *rapid.T) *World {
 	}
 	return w
 }
+
+// GenFragmentationFamily builds closed systems in which idle GPUs exist but are scattered: nodes with an odd number
+// of GPUs, every pod asks for two, each node is left with one idle GPU. Elastic workloads (minimum 1) of the same
+// queue run above their minimum and have further pods pending, so the consolidation action is tempted every cycle:
+// it may move pods, but a move that does not re-place every victim frees nothing for good - the victim comes back
+// pending, is handed its node again and the next cycle starts where this one started.
+func GenFragmentationFamily(t *rapid.T) *World {
+	w := &World{Family: "fragmentation"}
+	c := &w.Config
+	c.FullHierarchy = true
+	c.PlacementGPU = pickS(t, "placementGpu", "binpack", "spread")
+	c.PlacementCPU = "binpack"
+	c.MaxConsolidation = pickInt(t, "maxConsolidation", 16, 16, 2)
+	c.Actions = [][]string{nil, {"allocate", "consolidation"}, {"allocate", "consolidation", "reclaim", "preempt"}}[uniform(t, 3, "actions")]
+	nNodes := between(t, 2, 4, "nNodes")
+	gpn := pickInt(t, "gpusPerNode", 3, 3, 5)
+	for i := 0; i < nNodes; i++ {
+		w.Nodes = append(w.Nodes, Node{Name: fmt.Sprintf("n%d", i), GPUs: gpn, GPUMem: 16000, CPU: 32000, MemMB: 65536, Pods: 110, Labels: map[string]string{}})
+	}
+	total := nNodes * gpn
+	free := QRes{Quota: -1, Limit: -1, Weight: 1}
+	nq := between(t, 1, 2, "queues")
+	w.Queues = []Queue{{Name: "root", GPU: QRes{Quota: float64(total), Limit: -1, Weight: 1}, CPU: free, Mem: free}}
+	for q := 0; q < nq; q++ {
+		w.Queues = append(w.Queues, Queue{Name: fmt.Sprintf("q%d", q), Parent: "root", GPU: QRes{Quota: float64(total), Limit: -1, Weight: 1}, CPU: free, Mem: free, CreatedMin: 100 - q})
+	}
+	nJobs := between(t, 2, 3, "jobs")
+	samePrio := chance(t, 7, "samePriority")
+	for j := 0; j < nJobs; j++ {
+		g := Group{Name: fmt.Sprintf("e%d", j), Queue: fmt.Sprintf("q%d", j%nq), PriorityClass: "train", Preemptibility: "preemptible", MinMember: 1, CreatedMin: 50 + j, LastStartMin: 1000}
+		if !samePrio {
+			g.PriorityClass = pickS(t, "prio", "train", "build-preemptible")
+		}
+		w.Groups = append(w.Groups, g)
+	}
+	// running pods: gpn/2 per node, dealt round-robin to the workloads (each ends with at least one when there are
+	// enough slots; a workload without a running pod is simply pending as a whole)
+	k := 0
+	for n := 0; n < nNodes; n++ {
+		for s := 0; s < gpn/2; s++ {
+			g := &w.Groups[k%nJobs]
+			g.Pods = append(g.Pods, Pod{Name: fmt.Sprintf("%s-r%d", g.Name, len(g.Pods)), CPU: 100, MemMB: 64, GPUs: 2, State: Running, Node: fmt.Sprintf("n%d", n), CreatedMin: 60})
+			k++
+		}
+	}
+	for j := range w.Groups {
+		g := &w.Groups[j]
+		for p, np := 0, between(t, 1, 2, "pendingPods"); p < np; p++ {
+			g.Pods = append(g.Pods, Pod{Name: fmt.Sprintf("%s-w%d", g.Name, p), CPU: 100, MemMB: 64, GPUs: 2, State: Pending, CreatedMin: 20})
+		}
+	}
+	for i := 0; i < between(t, 8, 12, "cycles"); i++ {
+		w.Cycles = append(w.Cycles, CycleScript{BindMode: 0, TermLinger: pickInt(t, "linger", 0, 0, 1), RecreateEvicted: true, Salt: i})
+	}
+	return w
+}
